@@ -29,7 +29,7 @@ PROP = dict(
               "evaluated by vm_compute (model comparison + gate monitors on the COMMITTED switches, read from the stores themselves); "
               "accounts are compared as accounts (the number read from all bytes of the address): 32-byte Cosmos accounts, among them aliases of the EVM-side party "
               "(same last 20 bytes), on the Cosmos side of both messages with bank send-enabled on and off; switch flips by MsgUpdateParams and by the legacy "
-              "ParameterChangeProposal route, and ghost flips on discarded branches followed by conversions (Go-side monitors: the keeper reports the committed switches; "
+              "ParameterChangeProposal route; module accounts (funded) as sender = receiver of both messages; the EVM route also through a forwarder contract (the callee of the transaction is not the token contract; multi-log receipts, monitors: bank side untouched for every pair whose hook route is closed, token ledger = the ordinary transfers); ghost flips on discarded branches followed by conversions (Go-side monitors: the keeper reports the committed switches; "
               "a discarded branch leaves no trace)",
     modelled=[
         "x/erc20/keeper/mint.go MintingEnabled (checks in code order)",
